@@ -101,88 +101,23 @@ Proof.
   pose proof (forward_open_nf r2) as H2. destruct (forward_open r2) as [[|]|e m]; [exact I|reflexivity|exact H2].
 Qed.
 
-(* ---------------------------------------------------------------- where the data field is missing *)
-(* SendUnitDataResponsePacket leaves self.data = None: reply-service or status byte absent, or no reply bit *)
-Definition no_data (raw : bytes) : bool :=
-  match byte_at 46 raw, byte_at 48 raw with Some s, Some _ => s <? 128 | _, _ => true end.
-
-Lemma unit_data_spec raw : bytes_ok raw = true ->
-  if no_data raw then r_data (parse_unit raw) = None /\ r_service_status (parse_unit raw) = None
-  else r_data (parse_unit raw) = Some (skipn 50 raw) /\ r_service_status (parse_unit raw) = byte_at 48 raw.
-Proof.
-  intros Hok. destruct (parse_cip_spec 46 48 50 raw Hok) as (_ & _ & _ & _ & P5). fold (parse_unit raw) in P5.
-  unfold no_data, byte_at.
-  destruct (nth_error raw 46) as [s|]; [|split; apply P5].
-  destruct (nth_error raw 48) as [g|]; [|split; apply P5].
-  destruct (128 <=? s) eqn:E.
-  - replace (s <? 128) with false by lia. split; apply P5.
-  - replace (s <? 128) with true by lia. split; apply P5.
-Qed.
-
 (* ---------------------------------------------------------------- fragmented read *)
-Fixpoint frag_guard (replies : list bytes) : bool :=
-  match replies with
-  | [] => false
-  | raw :: rest => no_data raw || match byte_at 48 raw with Some 6 => frag_guard rest | _ => false end
-  end.
+Lemma parse_read_frag_r raw : f_r (parse_read_frag raw) = parse_unit raw.
+Proof. unfold parse_read_frag. destruct (r_data (parse_unit raw)) as [b|]; [destruct (is_struct_reply b)|]; reflexivity. Qed.
 
-Lemma parse_read_frag_spec raw : bytes_ok raw = true ->
-  if no_data raw then parse_read_frag raw = RErr (Foreign TypeError) none_not_subscriptable
-  else exists f, parse_read_frag raw = ROk f /\ f_r f = parse_unit raw.
+Lemma read_frag_loop_nf dec replies : forall acc, nf (read_frag_loop dec replies acc).
 Proof.
-  intros Hok. pose proof (unit_data_spec raw Hok) as H. unfold parse_read_frag.
-  destruct (no_data raw); destruct H as [H1 H2]; rewrite H1; [reflexivity|].
-  destruct (is_struct_reply (skipn 50 raw)); eexists; split; reflexivity.
+  induction replies as [|raw rest IH]; intros acc; cbn [read_frag_loop]; [reflexivity|]. cbv zeta.
+  destruct (opt_is (r_service_status (f_r (parse_read_frag raw))) INSUFFICIENT_PACKETS); [apply IH|].
+  pose proof (error_nf KUnit (f_r (parse_read_frag raw))) as He.
+  destruct (error KUnit (f_r (parse_read_frag raw))); [|exact He].
+  destruct (forallb _ _); exact I.
 Qed.
-
-Lemma opt_is_6 raw : bytes_ok raw = true -> no_data raw = false ->
-  opt_is (r_service_status (parse_unit raw)) INSUFFICIENT_PACKETS = match byte_at 48 raw with Some 6 => true | _ => false end.
+Lemma read_fragmented_nf dec replies : nf (read_fragmented dec replies).
 Proof.
-  intros Hok Hn. pose proof (unit_data_spec raw Hok) as H. rewrite Hn in H. destruct H as [_ ->].
-  destruct (byte_at 48 raw) as [g|]; [|reflexivity]. unfold opt_is, INSUFFICIENT_PACKETS.
-  destruct g as [|p|p]; try reflexivity.
-Qed.
-
-Lemma read_frag_loop_nf dec replies : Forall (fun r => bytes_ok r = true) replies ->
-  forall acc, frag_guard replies = false -> nf (read_frag_loop dec replies acc).
-Proof.
-  induction 1 as [|raw rest Hok _ IH]; intros acc Hg; [reflexivity|].
-  cbn [frag_guard] in Hg. apply orb_false_iff in Hg as [Hn Hg].
-  cbn [read_frag_loop]. pose proof (parse_read_frag_spec raw Hok) as Hp. rewrite Hn in Hp.
-  destruct Hp as (f & -> & Hf). rewrite Hf, (opt_is_6 raw Hok Hn).
-  destruct (byte_at 48 raw) as [g|].
-  2:{ pose proof (error_nf KUnit (parse_unit raw)) as He. destruct (error KUnit (parse_unit raw)); [|exact He].
-      destruct (forallb _ _); exact I. }
-  assert (Hcase : g = 6 \/ match g with 6 => false | _ => true end = true).
-  { destruct g as [|p|p]; auto. repeat (destruct p as [p|p|]; auto). }
-  destruct Hcase as [->|Hne].
-  - apply IH, Hg.
-  - assert (Hm : match g with 6 => true | _ => false end = false).
-    { destruct g as [|p|p]; auto. repeat (destruct p as [p|p|]; auto); discriminate. }
-    rewrite Hm. pose proof (error_nf KUnit (parse_unit raw)) as He. destruct (error KUnit (parse_unit raw)); [|exact He].
-    destruct (forallb _ _); exact I.
-Qed.
-
-Lemma read_fragmented_nf dec replies : Forall (fun r => bytes_ok r = true) replies ->
-  frag_guard replies = false -> nf (read_fragmented dec replies).
-Proof.
-  intros Hok Hg. unfold read_fragmented. pose proof (read_frag_loop_nf dec replies Hok [] Hg) as H.
+  unfold read_fragmented. pose proof (read_frag_loop_nf dec replies []) as H.
   destruct (read_frag_loop dec replies []) as [[r v]|e m]; [|exact H].
   pose proof (tag_of_response_nf KUnit r v) as H2. destruct (tag_of_response KUnit r v); [exact I|exact H2].
-Qed.
-
-(* the guard is exact: on the excluded class a TypeError does escape *)
-Lemma read_frag_loop_foreign dec replies : Forall (fun r => bytes_ok r = true) replies ->
-  forall acc, frag_guard replies = true ->
-  read_frag_loop dec replies acc = RErr (Foreign TypeError) none_not_subscriptable.
-Proof.
-  induction 1 as [|raw rest Hok _ IH]; intros acc Hg; [discriminate|].
-  cbn [frag_guard] in Hg. cbn [read_frag_loop]. pose proof (parse_read_frag_spec raw Hok) as Hp.
-  destruct (no_data raw) eqn:Hn; [now rewrite Hp|].
-  destruct Hp as (f & -> & Hf). rewrite Hf, (opt_is_6 raw Hok Hn). cbn [orb] in Hg.
-  destruct (byte_at 48 raw) as [g|]; [|discriminate].
-  destruct g as [|p|p]; try discriminate. repeat (destruct p as [p|p|]; try discriminate).
-  apply IH, Hg.
 Qed.
 
 (* ---------------------------------------------------------------- fragmented write *)
@@ -213,49 +148,6 @@ Proof.
 Qed.
 
 (* ---------------------------------------------------------------- multi-service *)
-(* the offset table is empty: reply count 0, or the reply ends right after the count *)
-Definition multi_guard (raw : bytes) : bool :=
-  negb (no_data raw) && match u16_at 50 raw with Some n => (n =? 0) || (length raw =? 52)%nat | None => false end.
-
-Lemma decode_offsets_lib od : rm_lib (decode_offsets od).
-Proof.
-  induction od as [|a|a b r IH] using list_pair_ind; cbn [decode_offsets]; [exact I|cbn; auto|].
-  destruct (decode_offsets r); [exact I|exact IH].
-Qed.
-
-Lemma split_multi_spec raw : bytes_ok raw = true ->
-  if multi_guard raw then split_multi (r_data (parse_unit raw)) = RErr (Foreign StopIteration) []
-  else nf (split_multi (r_data (parse_unit raw))).
-Proof.
-  intros Hok. pose proof (unit_data_spec raw Hok) as H. unfold multi_guard.
-  destruct (no_data raw); destruct H as [H1 _]; rewrite H1; cbn [negb andb split_multi].
-  { unfold decode_elem_none. reflexivity. }
-  set (data := skipn 50 raw).
-  assert (Hl : length data = (length raw - 50)%nat) by apply skipn_length.
-  assert (Hu : u16_at 50 raw = u16_at 0 data) by (unfold data; rewrite u16_at_shift; f_equal; lia).
-  rewrite Hu. rewrite u16_at_skipn. cbn [skipn].
-  destruct data as [|a [|b q]] eqn:Ed.
-  - unfold decode_elem. rewrite UINT_eq. reflexivity.
-  - unfold decode_elem. rewrite UINT_eq. reflexivity.
-  - assert (Hokd : bytes_ok data = true) by (apply bytes_ok_skipn, Hok). rewrite Ed in Hokd.
-    rewrite decode_elem_full by (rewrite UINT_eq; cbn [ety_size length]; lia).
-    rewrite UINT_eq. unfold elem_value. cbn [ety_size ety_signed firstn le_dec].
-    replace (a + 256 * (b + 256 * 0)) with (a + 256 * b) by lia.
-    rewrite !bytes_ok_cons in Hokd. unfold byte_ok in Hokd.
-    unfold slice. cbn [skipn].
-    destruct ((a + 256 * b =? 0) || (length raw =? 52)%nat) eqn:Eg.
-    + assert (Hz : firstn (2 + 2 * Z.to_nat (a + 256 * b) - 2) q = []).
-      { apply orb_true_iff in Eg as [Eg|Eg].
-        - replace (a + 256 * b) with 0 by lia. reflexivity.
-        - apply Nat.eqb_eq in Eg. cbn [length] in Hl. destruct q; [now rewrite firstn_nil|cbn [length] in Hl; lia]. }
-      rewrite Hz. reflexivity.
-    + apply orb_false_iff in Eg as [Eg1 Eg2]. apply Nat.eqb_neq in Eg2. cbn [length] in Hl.
-      destruct q as [|c q']; [cbn [length] in Hl; lia|].
-      replace (2 + 2 * Z.to_nat (a + 256 * b) - 2)%nat with (S (S (2 * (Z.to_nat (a + 256 * b) - 1)))) by lia.
-      cbn [firstn]. pose proof (decode_offsets_lib (c :: firstn (S (2 * (Z.to_nat (a + 256 * b) - 1))) q')) as Hd.
-      destruct (decode_offsets _); [exact I|now apply lib_nf].
-Qed.
-
 Lemma multi_tags_nf rs : nf (multi_tags rs).
 Proof.
   induction rs as [|s rest IH]; [exact I|]. cbn [multi_tags].
@@ -264,29 +156,18 @@ Proof.
   - pose proof (error_nf KUnit (s_r s)) as He. destruct (error KUnit (s_r s)); [|exact He].
     destruct (multi_tags rest); [exact I|exact IH].
 Qed.
+Lemma rest_error_nf r : nf (rest_error r).
+Proof. unfold rest_error. pose proof (error_nf KUnit r) as H. destruct (error KUnit r) as [[[|c t]|]|e m]; try exact I. exact H. Qed.
 
-Lemma rw_multi_nf reqs raw : bytes_ok raw = true -> multi_guard raw = false -> nf (rw_multi reqs raw).
+Lemma rw_multi_nf reqs raw : nf (rw_multi reqs raw).
 Proof.
-  intros Hok Hg. unfold rw_multi, parse_multi. pose proof (split_multi_spec raw Hok) as H. rewrite Hg in H.
-  destruct (split_multi (r_data (parse_unit raw))) as [ds|e m]; [|exact H].
-  pose proof (multi_tags_nf (zip_sub ds reqs)) as H2. destruct (multi_tags (zip_sub ds reqs)); [exact I|exact H2].
-Qed.
-Lemma rw_multi_foreign reqs raw : bytes_ok raw = true -> multi_guard raw = true ->
-  rw_multi reqs raw = RErr (Foreign StopIteration) [].
-Proof.
-  intros Hok Hg. unfold rw_multi, parse_multi. pose proof (split_multi_spec raw Hok) as H. rewrite Hg in H. now rewrite H.
+  unfold rw_multi. destruct (parse_multi reqs raw) as [r subs].
+  pose proof (multi_tags_nf subs) as H. destruct (multi_tags subs) as [ts|e m]; [|exact H].
+  destruct (skipn (length subs) reqs); [exact I|].
+  pose proof (rest_error_nf r) as H2. destruct (rest_error r); [exact I|exact H2].
 Qed.
 
 (* ---------------------------------------------------------------- all calls *)
-Fixpoint call_guard (c : call) (replies : list bytes) : bool :=
-  match c with
-  | CReadFrag _ => frag_guard replies
-  | CMulti _ => match replies with raw :: _ => multi_guard raw | [] => false end
-  | CWriteFrag _ n => (n =? 0)%nat
-  | CWithFO f c' => match with_forward_open f replies with ROk rest => call_guard c' rest | RErr _ _ => false end
-  | _ => false
-  end.
-
 Lemma with_forward_open_rest f replies rest : with_forward_open f replies = ROk rest ->
   exists used, replies = used ++ rest.
 Proof.
@@ -303,37 +184,20 @@ Proof.
   specialize (H raw). destruct (f raw); [exact I|exact H].
 Qed.
 
-Theorem calls_library_only c : forall replies, Forall (fun r => bytes_ok r = true) replies ->
-  call_guard c replies = false -> nf (run_call c replies).
+(* no foreign exception escapes any call, whatever the reply bytes *)
+Theorem calls_library_only c : forall replies, nf (run_call c replies).
 Proof.
-  induction c as [dec|dec|v|v n|reqs|k dt| |f c IH]; intros replies Hok Hg; cbn [run_call call_guard] in *.
+  induction c as [dec|dec|v|v n|reqs|k dt| |f c IH]; intros replies; cbn [run_call].
   - apply one_reply_nf, read_single_nf.
-  - pose proof (read_fragmented_nf dec replies Hok Hg) as H. unfold tag_out. destruct (read_fragmented dec replies); [exact I|exact H].
+  - pose proof (read_fragmented_nf dec replies) as H. unfold tag_out. destruct (read_fragmented dec replies); [exact I|exact H].
   - apply one_reply_nf, write_single_nf.
-  - assert (Hn : (0 < n)%nat) by (apply Nat.eqb_neq in Hg; lia).
-    pose proof (write_fragmented_nf v n replies Hn) as H. unfold tag_out. destruct (write_fragmented v n replies); [exact I|exact H].
-  - destruct replies as [|raw q]; [reflexivity|]. inversion Hok as [|? ? Hr _]; subst.
-    pose proof (rw_multi_nf reqs raw Hr Hg) as H. unfold tags_out. destruct (rw_multi reqs raw); [exact I|exact H].
+  - pose proof (write_fragmented_nf v (S n) replies (Nat.lt_0_succ n)) as H. unfold tag_out. destruct (write_fragmented v (S n) replies); [exact I|exact H].
+  - destruct replies as [|raw q]; [reflexivity|].
+    pose proof (rw_multi_nf reqs raw) as H. unfold tags_out. destruct (rw_multi reqs raw); [exact I|exact H].
   - apply one_reply_nf. intros raw. apply generic_message_nf.
   - unfold open_call. destruct replies; [reflexivity|exact I].
   - pose proof (with_forward_open_nf f replies) as H.
-    destruct (with_forward_open f replies) as [rest|e m] eqn:E; [|exact H].
-    apply IH; [|exact Hg]. destruct (with_forward_open_rest f replies rest E) as [used ->].
-    apply Forall_app in Hok. apply Hok.
-Qed.
-
-(* exactness of the guard: on the excluded class a foreign exception DOES escape *)
-Theorem call_guard_exact c : forall replies, Forall (fun r => bytes_ok r = true) replies ->
-  call_guard c replies = true -> exists k m, run_call c replies = RErr (Foreign k) m.
-Proof.
-  induction c as [dec|dec|v|v n|reqs|k dt| |f c IH]; intros replies Hok Hg; cbn [run_call call_guard] in *; try discriminate.
-  - unfold read_fragmented, tag_out. rewrite (read_frag_loop_foreign dec replies Hok [] Hg). eauto.
-  - apply Nat.eqb_eq in Hg. subst n. unfold write_fragmented, tag_out. cbn. eauto.
-  - destruct replies as [|raw q]; [discriminate|]. inversion Hok as [|? ? Hr _]; subst.
-    rewrite (rw_multi_foreign reqs raw Hr Hg). cbn. eauto.
-  - destruct (with_forward_open f replies) as [rest|e m] eqn:E; [|discriminate].
-    apply IH; [|exact Hg]. destruct (with_forward_open_rest f replies rest E) as [used ->].
-    apply Forall_app in Hok. apply Hok.
+    destruct (with_forward_open f replies) as [rest|e m]; [apply IH|exact H].
 Qed.
 
 (* ================================================================ truthy results are backed by status words *)
@@ -428,11 +292,6 @@ Proof.
 Qed.
 
 (* ---------------------------------------------------------------- fragmented read / write *)
-Lemma parse_read_frag_r raw f : parse_read_frag raw = ROk f -> f_r f = parse_unit raw.
-Proof.
-  unfold parse_read_frag. destruct (r_data (parse_unit raw)); [|discriminate].
-  destruct (is_struct_reply b); intros [= <-]; reflexivity.
-Qed.
 Lemma frag_parse_value_valid dec f j : is_valid KUnit (f_r (frag_parse_value dec f j)) = true -> is_valid KUnit (f_r f) = true.
 Proof.
   unfold frag_parse_value. destruct (is_valid KUnit (f_r f)) eqn:E; [reflexivity|]. cbn [f_r]. now rewrite E.
@@ -445,8 +304,8 @@ Lemma read_frag_loop_valid dec : forall replies acc r v,
        /\ Forall (fun raw => is_valid KUnit (parse_unit raw) = true) used.
 Proof.
   induction replies as [|raw rest IH]; intros acc r v H Hv; [discriminate|].
-  cbn [read_frag_loop] in H. destruct (parse_read_frag raw) as [f|] eqn:Ef; [|discriminate].
-  pose proof (parse_read_frag_r raw f Ef) as Hf.
+  cbn [read_frag_loop] in H. cbv zeta in H. set (f := parse_read_frag raw) in *.
+  pose proof (parse_read_frag_r raw) as Hf. fold f in Hf.
   destruct (opt_is (r_service_status (f_r f)) INSUFFICIENT_PACKETS).
   - destruct (IH _ _ _ H Hv) as (Ha & used & rest' & -> & Hne & Hu).
     apply Forall_app in Ha as [Ha Hf1]. split; [exact Ha|].
@@ -562,19 +421,43 @@ Proof.
     + cbn [nth_error] in *. apply (IH ts (S k) i t H).
 Qed.
 
+Lemma Forall_map_const {A B} (P : B -> Prop) (b : B) (l : list A) : P b -> Forall P (map (fun _ => b) l).
+Proof. intros H. induction l; cbn; auto. Qed.
+
+Lemma post_multi_falsy q t0 : t_value t0 = None -> t_error t0 <> None -> tag_truthy (post_multi q t0) = false.
+Proof.
+  intros Hv He. destruct q as [dec|v]; cbn [post_multi].
+  - rewrite read_post_truthy. unfold tag_truthy. now rewrite Hv.
+  - unfold write_post, tag_truthy. cbn [t_value t_error is_some andb]. destruct (t_error t0); [reflexivity|congruence].
+Qed.
+
+(* a truthy per-service result: the service reply's own words say success AND the enclosing frame's
+   encapsulation status is 0 *)
 Theorem multi_truthy reqs raw tags i t : bytes_ok raw = true ->
   rw_multi reqs raw = ROk tags -> nth_error tags i = Some t -> tag_truthy t = true ->
-  exists w, multi_sub_words raw i = Some w /\ sub_words_ok w = true.
+  multi_sub_success raw i = true.
 Proof.
   intros Hok H Hi Ht. unfold rw_multi in H.
-  destruct (parse_multi reqs raw) as [[r subs]|] eqn:Ep; [|discriminate].
-  destruct (multi_tags subs) as [ts|] eqn:Em; [|discriminate]. injection H as <-.
+  destruct (parse_multi reqs raw) as [r subs] eqn:Ep.
+  destruct (multi_tags subs) as [ts|] eqn:Em; [|discriminate].
+  assert (Hall : exists fill, tags = collect_results 0 reqs (ts ++ fill)
+                              /\ Forall (fun t0 => t_value t0 = None /\ t_error t0 <> None) fill).
+  { destruct (skipn (length subs) reqs) as [|m ms].
+    - exists []. rewrite app_nil_r. split; [congruence|constructor].
+    - destruct (rest_error r) as [e|]; [|discriminate]. injection H as <-. eexists. split; [reflexivity|].
+      apply (Forall_map_const _ _ (m :: ms)). cbn. split; [reflexivity|discriminate]. }
+  destruct Hall as (fill & -> & Hfill).
   destruct (collect_results_nth _ _ _ _ _ Hi) as [(q & t0 & Hq & Ht0 & ->)|[_ Hf]]; [|congruence].
-  destruct (multi_tags_nth _ _ Em _ _ Ht0) as (s & Hs & [[Hv _]|[Hv [Hval Herr]]]).
-  - exact (multi_sub_words_of_valid reqs raw r subs i s Hok Ep Hs Hv).
-  - exfalso. destruct q as [dec|v]; cbn [post_multi] in Ht.
-    + rewrite read_post_truthy in Ht. unfold tag_truthy in Ht. rewrite Hval in Ht. discriminate.
-    + unfold write_post, tag_truthy in Ht. cbn [t_value t_error is_some andb] in Ht. destruct (t_error t0); [discriminate|congruence].
+  assert (Hcase : nth_error ts i = Some t0 \/ In t0 fill).
+  { destruct (Nat.lt_ge_cases i (length ts)) as [Hlt|Hge].
+    - left. now rewrite nth_error_app1 in Ht0.
+    - right. rewrite nth_error_app2 in Ht0 by lia. eapply nth_error_In; eauto. }
+  destruct Hcase as [Hts|Hin].
+  - destruct (multi_tags_nth _ _ Em _ _ Hts) as (s & Hs & [[Hv _]|[Hv [Hval Herr]]]).
+    + exact (multi_sub_words_of_valid reqs raw r subs i s Hok Ep Hs Hv).
+    + rewrite (post_multi_falsy q t0 Hval Herr) in Ht. discriminate.
+  - rewrite Forall_forall in Hfill. destruct (Hfill _ Hin) as [Hval Herr].
+    rewrite (post_multi_falsy q t0 Hval Herr) in Ht. discriminate.
 Qed.
 
 (* ================================================================ well-formed error replies give falsy results with a text *)
@@ -618,4 +501,65 @@ Proof.
     rewrite Hr. destruct dt; [rewrite Hv|]; reflexivity. }
   rewrite Hg, He. eexists. split; [reflexivity|]. split; [|exists e; split; [reflexivity|exact Hne]].
   unfold tag_truthy. cbn [t_error is_none]. apply andb_false_r.
+Qed.
+
+(* ---------------------------------------------------------------- multi-service: an error reply without service data fails every request *)
+Definition no_service_data (raw : bytes) : bool :=
+  wf_header_only_error raw
+  || match byte_at 49 raw with Some n => Z.of_nat (length raw) =? 50 + 2 * n | None => false end.
+(* what the code still gets wrong: with two or more additional-status words (and encapsulation
+   status 0) the additional status itself is read as reply count and offset table *)
+Definition multi_ext_guard (raw : bytes) : bool :=
+  encap_zero raw && match byte_at 49 raw with Some n => 2 <=? n | None => false end.
+
+Lemma collect_results_fill : forall reqs k t0,
+  collect_results k reqs (map (fun _ => t0) reqs) = map (fun q => post_multi q t0) reqs.
+Proof. induction reqs as [|q reqs IH]; intros k t0; cbn [map collect_results]; [reflexivity|]. f_equal. apply IH. Qed.
+
+Lemma parse_multi_nothing reqs raw : bytes_ok raw = true -> wf_error KUnit raw = true ->
+  no_service_data raw = true -> multi_ext_guard raw = false -> parse_multi reqs raw = (parse_unit raw, []).
+Proof.
+  intros Hok Hw Hn Hg. unfold parse_multi.
+  destruct (parse_cip_spec 46 48 50 raw Hok) as (_ & _ & _ & P4 & P5). fold (parse_unit raw) in P4, P5.
+  destruct (wf_header_only_error raw) eqn:Eh.
+  { unfold wf_header_only_error in Eh. apply andb_true_iff in Eh as [Hl _]. apply Nat.eqb_eq in Hl.
+    assert (H46 : nth_error raw 46 = None) by (apply nth_error_None; lia). rewrite H46 in P5. destruct P5 as (Q1 & _).
+    now rewrite Q1. }
+  unfold wf_error in Hw. rewrite Eh, orb_false_r in Hw. cbn [layout_k partial_k] in Hw. apply andb_true_iff in Hw as [Hwf _].
+  unfold no_service_data in Hn. rewrite Eh in Hn. cbn [orb] in Hn.
+  unfold wf_cip_reply in Hwf. destruct (encap_status raw) as [e|] eqn:Ee; [|discriminate].
+  cbn [l_extsize l_svc l_data unit_layout] in Hwf. destruct (byte_at 49 raw) as [n|] eqn:E49; [|discriminate].
+  apply andb_true_iff in Hwf as [Hrb _]. unfold reply_bit in Hrb. cbn [l_svc unit_layout] in Hrb.
+  unfold byte_at in *. destruct (nth_error raw 46) as [s|]; [|discriminate].
+  pose proof (nth_error_bytes_ok raw _ n Hok E49) as Hnr.
+  assert (H48 : exists g, nth_error raw 48 = Some g).
+  { destruct (nth_error raw 48) eqn:E; [eauto|]. apply nth_error_None in E. apply nth_error_some_lt in E49. lia. }
+  destruct H48 as [g H48]. rewrite H48, Hrb in P5. destruct P5 as (_ & _ & Q3 & Q4).
+  unfold encap_status in Ee. rewrite Ee in P4, Q4. cbn [option_map is_none] in P4, Q4. rewrite Q4, P4, Q3.
+  cbn [orb opt_is]. unfold SUCCESS. rewrite (to_signed4_zero e (u32_range 8 raw e Hok Ee)).
+  destruct (e =? 0) eqn:E0; [|reflexivity]. cbn [negb].
+  unfold multi_ext_guard, encap_zero, encap_status, byte_at in Hg. rewrite Ee, E0, E49 in Hg. cbn [andb] in Hg.
+  assert (Hl : length (skipn 50 raw) = Z.to_nat (2 * n)) by (rewrite skipn_length; lia).
+  assert (Hn01 : n = 0 \/ n = 1) by lia. destruct Hn01 as [->| ->].
+  - destruct (skipn 50 raw); [reflexivity|cbn in Hl; lia].
+  - destruct (skipn 50 raw) as [|a [|b [|c q]]]; cbn in Hl; try lia.
+    unfold split_multi. rewrite decode_elem_full by (rewrite UINT_eq; cbn; lia).
+    unfold slice. cbn [skipn]. rewrite firstn_nil. reflexivity.
+Qed.
+
+Theorem multi_wf_error reqs raw : reqs <> [] -> bytes_ok raw = true -> wf_error KUnit raw = true ->
+  no_service_data raw = true -> multi_ext_guard raw = false ->
+  exists tags, rw_multi reqs raw = ROk tags /\ tags <> [] /\ Forall falsy_text tags.
+Proof.
+  intros Hne Hok Hw Hn Hg.
+  destruct (error_of_wf_error KUnit raw (or_introl eq_refl) Hok Hw) as (Hv & e & He & Hnee). cbn [parse_k] in Hv, He.
+  unfold rw_multi. rewrite (parse_multi_nothing reqs raw Hok Hw Hn Hg). cbn [multi_tags length skipn].
+  destruct reqs as [|q qs]; [congruence|].
+  unfold rest_error. rewrite He. destruct e as [|c e']; [congruence|].
+  cbn [app]. rewrite collect_results_fill.
+  eexists. split; [reflexivity|]. split; [discriminate|].
+  apply Forall_forall. intros t Ht. apply in_map_iff in Ht as (q0 & <- & _).
+  split.
+  - apply post_multi_falsy; [reflexivity|discriminate].
+  - exists (c :: e'). split; [|discriminate]. destruct q0 as [dec|v]; reflexivity.
 Qed.
